@@ -13,6 +13,7 @@ require (
 	github.com/luno/workflow/adapters/sqlstore v0.0.0-00010101000000-000000000000
 	github.com/luno/workflow/adapters/sqltimeout v0.0.0-00010101000000-000000000000
 	github.com/luno/workflow/adapters/webui v0.0.0-00010101000000-000000000000
+	github.com/robfig/cron/v3 v3.0.1
 	google.golang.org/protobuf v1.36.6
 	k8s.io/utils v0.0.0-20240921022957-49e7df575cb6
 )
@@ -33,7 +34,6 @@ require (
 	github.com/prometheus/client_model v0.6.1 // indirect
 	github.com/prometheus/common v0.55.0 // indirect
 	github.com/prometheus/procfs v0.15.1 // indirect
-	github.com/robfig/cron/v3 v3.0.1 // indirect
 	github.com/stretchr/testify v1.10.0 // indirect
 	golang.org/x/sys v0.31.0 // indirect
 	golang.org/x/xerrors v0.0.0-20240903120638-7835f813f4da // indirect
